@@ -484,6 +484,7 @@ class Ctx(object):
         self.robust = []        # strengthened copies for interior models
         self.solver = z3.Solver()
         self.solver.set('timeout', engine.query_timeout_ms)
+        self.solver.set('rlimit', engine.rlimit)   # deterministic backstop: z3's wall-clock timeout is not polled everywhere
         self.model = None
         self.vars = {}          # name -> z3 const (inputs, in creation order)
         self.var_kinds = {}
@@ -750,6 +751,7 @@ class Ctx(object):
             except z3.Z3Exception:
                 continue
             s.set('timeout', self.engine.final_timeout_ms)
+            s.set('rlimit', self.engine.rlimit)
             for p in self.pc:
                 s.add(p)
             s.add(t)
@@ -775,6 +777,7 @@ class Ctx(object):
     def _robust_model(self, extra=None):
         s = z3.Solver()
         s.set('timeout', min(5000, self.engine.query_timeout_ms))
+        s.set('rlimit', self.engine.rlimit // 10)
         for p in self.robust:
             s.add(p)
         if extra is not None:
@@ -805,6 +808,7 @@ class Ctx(object):
         tentative candidates that are replayed on the real code anyway."""
         s = z3.Solver()
         s.set('timeout', 5000)
+        s.set('rlimit', self.engine.rlimit // 10)
         for p in self.input_pc:
             s.add(p)
         self.engine.stats.queries += 1
@@ -933,7 +937,7 @@ class ConcreteCtx(object):
 class Engine(object):
     def __init__(self, config_name='', mode='precise', max_depth=600, query_timeout_s=60,
                  final_timeout_s=60, first_timeout_s=4, check_div=True, max_paths=None, margin=1e-6,
-                 square_abs=False, max_concretize=64, validate=200, budget_s=None, dry=False, domain_checks=True):
+                 square_abs=False, max_concretize=64, validate=200, budget_s=None, dry=False, domain_checks=True, path_timeout_s=300):
         self.config_name = config_name
         self.mode = mode
         self.max_depth = max_depth
@@ -949,6 +953,8 @@ class Engine(object):
         self.budget_s = budget_s
         self.dry = dry
         self.domain_checks = domain_checks
+        self.path_timeout_s = int(path_timeout_s)
+        self.rlimit = int(max(query_timeout_s, final_timeout_s) * 4000000)
         self.stats = Stats()
         self.work = []
         self.candidates = []
@@ -977,7 +983,19 @@ class Engine(object):
     def run_path(self, body, prefix):
         ctx = Ctx(self, prefix)
         set_ctx(ctx)
+        from . import ops as _ops
+        _ops.configure()          # optional lemma groups back to their defaults for every path
         outcome = None
+        import signal
+
+        def _alarm(signum, frame):
+            raise Unsupported('path exceeded %ds (non-terminating code under test?)' % self.path_timeout_s)
+        old_handler = None
+        try:
+            old_handler = signal.signal(signal.SIGALRM, _alarm)
+            signal.alarm(self.path_timeout_s)
+        except (ValueError, AttributeError):
+            old_handler = None
         try:
             try:
                 body(ctx)
@@ -1005,6 +1023,12 @@ class Engine(object):
                     'robust': rob, 'trace_len': len(ctx.trace)})
                 outcome = ('exc', e)
         finally:
+            try:
+                signal.alarm(0)
+                if old_handler is not None:
+                    signal.signal(signal.SIGALRM, old_handler)
+            except (ValueError, AttributeError):
+                pass
             set_ctx(None)
         self.stats.paths += 1
         self.lemmas += ctx.lemma_count
